@@ -97,17 +97,20 @@ def _days_of_year(y, r, dtstart):
     if r.bymonth:
         days = restrict(days, [x for x in alldays if x.month in r.bymonth])
     if r.byweekno:
+        # the days of year y whose ISO week has one of the numbers: weeks of y itself and, for the days of a first week lying
+        # in the December before and of a last week lying in the January after, of the neighbouring ISO years
         sel = set()
-        nw = iso_weeks(y)
-        for w in r.byweekno:
-            k = _pick(w, nw)
-            if k is None:
-                continue
-            mon = week1_monday(y) + _dt.timedelta(days=7 * (k - 1))
-            for i in range(7):
-                x = mon + _dt.timedelta(days=i)
-                if x.year == y:
-                    sel.add(x)
+        for iy in (y - 1, y, y + 1):
+            nw = iso_weeks(iy)
+            for w in r.byweekno:
+                k = _pick(w, nw)
+                if k is None:
+                    continue
+                mon = week1_monday(iy) + _dt.timedelta(days=7 * (k - 1))
+                for i in range(7):
+                    x = mon + _dt.timedelta(days=i)
+                    if x.year == y:
+                        sel.add(x)
         days = restrict(days, sel)
     if r.byyearday:
         sel = set()
